@@ -68,6 +68,10 @@ type System struct {
 	AllMethods bool
 	// MaxMachines caps the total number of machines ever started (0 = unlimited).
 	MaxMachines int
+	// Keepalive overrides (period, timeout, rpcTimeout); zero = 20/60/30 ms. A killed
+	// machine refuses connections at once, so loss is noticed within one period
+	// whatever the timeouts are; generous timeouts avoid spurious losses under CPU load.
+	Keepalive [3]time.Duration
 
 	b     *bigmachine.B
 	mu    sync.Mutex
@@ -97,6 +101,9 @@ func (s *System) Exit(int)                                  {}
 func (s *System) Shutdown()                                 {}
 func (s *System) Maxprocs() int                             { return s.Procs }
 func (s *System) KeepaliveConfig() (time.Duration, time.Duration, time.Duration) {
+	if s.Keepalive != [3]time.Duration{} {
+		return s.Keepalive[0], s.Keepalive[1], s.Keepalive[2]
+	}
 	return 20 * time.Millisecond, 60 * time.Millisecond, 30 * time.Millisecond
 }
 func (s *System) Tail(context.Context, *bigmachine.Machine) (io.Reader, error) {
